@@ -395,11 +395,18 @@ def _build_raw(toks, i, objs):
     raise ValueError(f"bad head {t}")
 
 
+class Refused(Exception):
+    """the implementation refused an input every property takes for granted (a point over legal variable names)"""
+
+
 def build_point(text: str) -> Point:
     toks = text.split(" ")
     k = int(toks[0])
     d = {toks[1 + 2 * j]: raw_num(toks[2 + 2 * j]) for j in range(k)}
-    return Point(**d)
+    try:
+        return Point(**d)
+    except Exception as ex:  # noqa: BLE001 - e.g. TypeError when a coordinate name collides with a parameter name of Point.__init__
+        raise Refused(f"Point(**{d!r}) raised {type(ex).__name__}: {ex}") from ex
 
 
 def strip_ids(text: str) -> str:
